@@ -18,6 +18,12 @@ def mkReader (chunks : List Bytes) (isOpen : Bool) : RState := { queue := chunks
 
 def isIpLiteralName (_d : Bytes) : Bool := false
 
+/-- a dotted-quad IPv4 literal (what the generators use as the only name in UDP requests: it resolves
+to itself without the OS resolver) -/
+def isV4LiteralName (d : Bytes) : Bool :=
+  let parts := (String.ofList (d.map (fun b => Char.ofNat b.toNat))).splitOn "."
+  parts.length == 4 && parts.all (fun p => !p.isEmpty && p.length ≤ 3 && p.all Char.isDigit && p.toNat! ≤ 255 && (p.length == 1 || !p.startsWith "0"))
+
 def destOp (toks : List String) : String :=
   match toks with
   | "dec" :: isOpen :: chunks =>
@@ -32,6 +38,9 @@ def destOp (toks : List String) : String :=
     match allSome (chunks.map bytesOfHex) with
     | some cs =>
       match decodeUdpRequest (mkReader cs (isOpen == "1")) with
+      | (.ok (.domain d p), r') =>
+        -- any other name goes to the OS resolver: environment-dependent, judged by the oracle only
+        if isV4LiteralName d then s!"ok {showDest (.domain d p)} rest={hexOfBytes (readAllR r')}" else "skip"
       | (.ok d, r') => s!"ok {showDest d} rest={hexOfBytes (readAllR r')}"
       | (.err, _) => "err"
       | (.block, _) => "block"
